@@ -1,4 +1,5 @@
 import BlochVerif.Sim.Tensor
+import BlochVerif.Eval.QubitBookProofs
 /-!
 # C03 — the state stays a unit `2^n` vector, in any history (simulator half)
 
@@ -116,5 +117,29 @@ example : ∀ op ∈ ([.alloc, .alloc, .gate (.h 0), .cx 0 1, .measure 0 0, .all
   intro op hop
   simp only [List.mem_cons, List.mem_nil_iff, or_false] at hop
   rcases hop with h | h | h | h | h | h | h <;> subst h <;> simp [DrawOK] <;> norm_num
+
+end BlochVerif.Props.C03
+
+/-! ## qubit handles stay distinct, in any history (the evaluator's qubit book) -/
+namespace BlochVerif.Props.C03
+open BlochVerif.QubitBook
+
+/-- After any sequence of local declarations, object constructions and object destructions, no two live
+handles denote the same simulator qubit, and every live handle is inside the register. -/
+theorem live_handles_are_distinct_in_any_history (ops : List Op) :
+    (run {} ops).1.live.Nodup ∧ ∀ h ∈ (run {} ops).1.live, h < (run {} ops).1.next := by
+  have hi := run_inv ops {} inv_init
+  exact ⟨(List.nodup_append.mp hi.1).1, fun h hh => hi.2 h (List.mem_append_left _ hh)⟩
+
+/-- Every handle handed out — fresh from the simulator or recycled from a destroyed object — is different
+from every handle that is live at that moment, and the handles of one declaration are pairwise distinct. -/
+theorem a_new_handle_never_aliases_a_live_one (ops : List Op) (op : Op) :
+    let b := (run {} ops).1
+    (∀ h ∈ (step b op).2, h ∉ b.live) ∧ (step b op).2.Nodup :=
+  (step_spec _ (run_inv ops {} inv_init) op).2
+
+/-- a released index is handed out again only after its owner died: recycling is last-released-first -/
+example : (run {} [.newObj 1 2, .declare 1, .destroy 1, .declare 1, .newObj 2 2]).2 =
+    [[0, 1], [2], [], [1], [0, 3]] := by decide
 
 end BlochVerif.Props.C03
